@@ -182,6 +182,27 @@ func genC10base(t *rapid.T) Case {
 		}
 		c.Progs = []Prog{reader, writer}
 		n = 2
+		if rapid.IntRange(0, 3).Draw(t, "tailFamily") == 1 {
+			// sub-family: the writer merges the two oldest tables and appends k tables; then - while
+			// the reloading reader sits between reading the list and opening the last tables -
+			// it merges the newest two. The reader has by then put the reader of the merged
+			// bottom table where its old first reader was, when a later table turns out to be
+			// gone, and must retry from a clean slate.
+			k := rapid.IntRange(2, 3).Draw(t, "tailAdds")
+			writer = Prog{Ops: []POp{{Kind: KCompactRange, A: 0, B: 1}}}
+			for i := 0; i < k; i++ {
+				writer.Ops = append(writer.Ops, drawOp(t, OpWeights{KAdd: 1}, "p1/tail"+strconv.Itoa(i), hs, c.Cfg.Exact))
+			}
+			writer.Ops = append(writer.Ops, POp{Kind: KCompactRange, A: -2, B: -1})
+			writer.Ops = append(writer.Ops, drawOp(t, OpWeights{KAdd: 2, KCompactRange: 1}, "p1/tailx", hs, c.Cfg.Exact))
+			reader = Prog{Ops: []POp{{Kind: KOpen}, drawOp(t, OpWeights{KAdd: 1}, "p0/tail", hs, c.Cfg.Exact), {Kind: KRead},
+				drawOp(t, OpWeights{KAdd: 1}, "p0/tail2", hs, c.Cfg.Exact)}}
+			c.Progs = []Prog{reader, writer}
+			c.Sched = SchedSpec{Kind: "ops",
+				OpSegs: [][2]int{{0, 1}, {1, k + 1}, {0, 4}, {1, 9}},
+				Pre:    [][5]int{{0, 1, rapid.IntRange(3, 9).Draw(t, "tailYield"), 1, 1}}}
+			return c
+		}
 		if rapid.Bool().Draw(t, "churnOps") {
 			// operation-aligned: reader opens, writer runs a few operations, the reader's next
 			// operation is pre-empted at a drawn yield while the writer runs one or two more
